@@ -18,6 +18,7 @@ def run_item(pid, item):
     mod = importlib.import_module(f"harness.{pid}")
     B = backend.RealBackend(item.get("inputs") or {}, item.get("choices") or [])
     B.observed = {}
+    B.kind_filter = getattr(mod, "KIND_FILTER", None)
     res = {"reproduced": False, "failures": [], "exception": None}
     try:
         mod.scenario(B, item["case"])
